@@ -171,10 +171,12 @@ Proof. exact check_step_map_sound_Eval. Qed.
    K' containing K, and replace_subcircuit c sub imap omap fresh = Ok c'.  Then Eval of every
    surviving gate is the same in c' as in c, provided no leaf depends on a replaced output.
    PROVED (validator form): the same conclusion for any two states old / new that the
-   executable check_subst accepts - the cone agreement and the frame conditions (gates below
-   the leaves closed and untouched, no untouched gate reads a replaced internal gate, same
-   interface, only cone gates touched) are checked on the two states instead of being derived
-   from the definition of replace_subcircuit; the harness checks for every recorded step that
+   executable check_subst accepts - the cone agreement and the frame conditions (new is
+   acyclic: a checked operands-first order; the leaves survive and are not cone outputs; no
+   untouched gate other than a cone output reads a replaced internal gate; same interface;
+   only cone gates touched) are checked on the two states instead of being derived from the
+   definition of replace_subcircuit; the proviso "no leaf depends on a replaced output" is
+   not needed in this form (acyclicity of the result is checked instead); the harness checks for every recorded step that
    the model's replace_subcircuit yields exactly the state `new`.
    If check_subst accepts the step old -> new, then under every assignment for which the
    leaves carry a compared Boolean vector, every gate of old other than the replaced internal
